@@ -164,8 +164,8 @@ theorem applyMatcher_njobs (a : MatcherArgs) (t : Option TokObj) (toks : TokFn) 
     (hv8 : ∀ tk, t = some tk → validateTokenizer tk = .ok ())
     (hv9 : genCheck (Gen.validate_comp_op (.str a.compOp)) = .ok ())
     (hv10 : validateKeyAttr a.lKey l = .ok ()) (hv11 : validateKeyAttr a.rKey r = .ok ())
-    (hl : ∀ cr ∈ c.rows, cr.cell (c.colIdx a.candLKey) ∈ l.col a.lKey)
-    (hr : ∀ cr ∈ c.rows, cr.cell (c.colIdx a.candRKey) ∈ r.col a.rKey)
+    (hl : ∀ cr ∈ c.rows, PyMem (cr.cell (c.colIdx a.candLKey)) (l.col a.lKey))
+    (hr : ∀ cr ∈ c.rows, PyMem (cr.cell (c.colIdx a.candRKey)) (r.col a.rKey))
     (hlen : c.rows.length < 2 ^ 40) (nj cpu nj' cpu' : Int)
     (hstr : t.isSome → StrColumn l a.lAttr ∧ StrColumn r a.rAttr) :
     ∃ fr fr', applyMatcher (a.withJobs nj) t toks sim cpu = .ok fr ∧
@@ -190,9 +190,9 @@ theorem filterCandset_njobs (a : CandsetArgs) (fp : Cell → Cell → Except PyE
     (hv7 : validateAttrType a.lAttr l = .ok ()) (hv8 : validateAttrType a.rAttr r = .ok ())
     (hv9 : validateKeyAttr a.lKey l = .ok ()) (hv10 : validateKeyAttr a.rKey r = .ok ())
     (lval rval : Row → Cell)
-    (hl : ∀ cr ∈ c.rows, ∃ lrow ∈ l.rows, lrow.cell (l.colIdx a.lKey) = cr.cell (c.colIdx a.candLKey) ∧
+    (hl : ∀ cr ∈ c.rows, ∃ lrow ∈ l.rows, (lrow.cell (l.colIdx a.lKey)).pyEq (cr.cell (c.colIdx a.candLKey)) = true ∧
                                          lrow.cell (l.colIdx a.lAttr) = lval cr)
-    (hr : ∀ cr ∈ c.rows, ∃ rrow ∈ r.rows, rrow.cell (r.colIdx a.rKey) = cr.cell (c.colIdx a.candRKey) ∧
+    (hr : ∀ cr ∈ c.rows, ∃ rrow ∈ r.rows, (rrow.cell (r.colIdx a.rKey)).pyEq (cr.cell (c.colIdx a.candRKey)) = true ∧
                                          rrow.cell (r.colIdx a.rAttr) = rval cr)
     (hfp : ∀ cr ∈ c.rows, ∃ b, fp (lval cr) (rval cr) = .ok b)
     (hlen : c.rows.length < 2 ^ 40) (nj cpu nj' cpu' : Int) :
